@@ -52,6 +52,9 @@ def histories(tier, seed):
         for calls in H.exhaustive_single(d1 - 1):
             out.append(H.mk_history("g%d" % n, calls, {"e1": kind}, cfgs=H.cfgs_for(kind, "graph")))
             n += 1
+        for calls in H.exhaustive_single(2):
+            out.append(H.mk_history("l%d" % n, calls, {"e1": kind}, cfgs=H.cfgs_for(kind, "graphloop")))
+            n += 1
     pairs = [("euler", "euler"), ("euler", "gillespie"), ("gillespie", "tauleap")]
     for k1, k2 in pairs:
         for calls in H.exhaustive_double(d2):
@@ -61,7 +64,7 @@ def histories(tier, seed):
     for i in range(nr1):
         kind = H.KINDS[i % 3]
         out.append(H.mk_history("r%d" % n, H.random_history(rng, rng.randint(8, 40)), {"e1": kind},
-                                cfgs=H.cfgs_for(kind, "graph" if i % 2 else "grid")))
+                                cfgs=H.cfgs_for(kind, ("grid", "graph", "grid", "graphloop")[i % 4])))
         n += 1
     for i in range(nr2):
         k1, k2 = rng.choice(H.KINDS), rng.choice(H.KINDS)
